@@ -16,7 +16,7 @@ import (
 
 // Step is one schema evolution inside a migration file.
 type Step struct {
-	Kind  string `json:"kind"` // add-table drop-table add-column drop-column add-virtual drop-virtual add-index drop-index rebuild-omit rebuild-keep temp-table temp-column
+	Kind  string `json:"kind"` // add-table drop-table add-column drop-column add-virtual drop-virtual add-index drop-index rebuild-omit rebuild-keep temp-table temp-column drop-readd-column drop-recreate-table rebuild-omit-virtual-and-later
 	Table string `json:"table"`
 	Col   string `json:"col,omitempty"`
 }
@@ -181,6 +181,25 @@ func apply(m, pre model, s Step) (sql []string, ws []want, ok bool) {
 			return rebuild(t, plain(t)), ws, true
 		}
 		return []string{fmt.Sprintf("ALTER TABLE `%s` DROP COLUMN `%s`", s.Table, s.Col)}, ws, true
+	case "rebuild-omit-virtual-and-later":
+		// one rebuild omits a VIRTUAL generated column together with every regular column that follows it
+		vi := -1
+		for i, c := range t.cols {
+			if c.virtual {
+				vi = i
+				break
+			}
+		}
+		if vi == -1 || vi == len(t.cols)-1 || vi < 2 {
+			return nil, nil, false
+		}
+		for _, c := range t.cols[vi+1:] {
+			if !c.virtual && preHas(c.name) {
+				ws = append(ws, want{"DS103", c.name, s.Table})
+			}
+		}
+		t.cols = t.cols[:vi]
+		return rebuild(t, plain(t)), ws, true
 	case "drop-readd-column": // the pre-existing column (and its data) is dropped, a new column of the same name is added
 		i := has(s.Col)
 		if i == -1 || s.Col == "id" || t.cols[i].virtual || len(plain(t)) <= 1 {
@@ -270,7 +289,7 @@ func checkCase(c Case) (Outcome, error) {
 	dev := "sqlite://dev?mode=memory"
 	m := model{}
 	// file 0: a fixed starting point so that later files have pre-existing objects
-	m["base"] = &table{cols: []column{{name: "id"}, {name: "a"}, {name: "b"}, {name: "g", virtual: true}}, indexes: []string{"ix_base_0"}}
+	m["base"] = &table{cols: []column{{name: "id"}, {name: "a"}, {name: "g", virtual: true}, {name: "b"}}, indexes: []string{"ix_base_0"}}
 	m["other"] = &table{cols: []column{{name: "id"}, {name: "a"}, {name: "b"}}}
 	sb.WriteFile("m/100_init.sql", m.schemaSQL())
 	rehash := func() error {
